@@ -488,21 +488,92 @@ Proof.
   rewrite Fa in Fa2. inversion Fa2; subst a2. exact CO.
 Qed.
 
+(* the children of a pre-shape have well-formed maps (they are compositions) *)
+Lemma set_apps_f_app_in : forall a l x, In x (app_occ_f (fst (set_apps_f a l))) -> In x l \/ In x (app_occ_f a).
+Proof.
+  induction a as [z|z|z b IH|p]; intros l x H; cbn [set_apps_f] in H.
+  - destruct H.
+  - destruct l as [|y t]; cbn [fst app_occ_f] in H; [right; exact H|]. destruct H as [<-|[]]. left. left. reflexivity.
+  - specialize (IH l x). destruct (set_apps_f b l) as [b' l']. cbn [fst app_occ_f] in *. exact (IH H).
+  - destruct H.
+Qed.
+
+Lemma set_apps_args_app_in : forall args l x, In x (flat_map app_occ_f (set_apps_args args l)) ->
+  In x l \/ In x (flat_map app_occ_f args).
+Proof.
+  induction args as [|a args IH]; intros l x H; cbn [set_apps_args flat_map] in *; [destruct H|].
+  pose proof (set_apps_f_app_in a l x) as A. pose proof (set_apps_f_snd_in a l) as S.
+  destruct (set_apps_f a l) as [a' l']. cbn [fst snd flat_map] in *. apply in_app_or in H. destruct H as [H|H].
+  - destruct (A H) as [T|T]; [left; exact T|right; apply in_or_app; left; exact T].
+  - destruct (IH l' x H) as [T|T]; [left; apply S; exact T|right; apply in_or_app; right; exact T].
+Qed.
+
+Lemma app_occ_set_apps_in : forall n l x, In x (app_occ (set_apps n l)) -> In x l \/ In x (app_occ n).
+Proof. intros n l x H. unfold app_occ, set_apps in *. cbn [nargs] in H. exact (set_apps_args_app_in _ _ _ H). Qed.
+
+Lemma zip_with_in : forall {A C D} (f : A -> C -> D) l l' x, In x (zip_with f l l') -> exists a c, x = f a c.
+Proof.
+  intros A C D f. induction l as [|a t IH]; intros l' x H; cbn [zip_with] in H; [destruct H|].
+  destruct l' as [|c t']; [destruct H|]. destruct H as [<-|H]; [eauto|eapply IH; eauto].
+Qed.
+
+Theorem pre_shape_kids_wf : forall s n p, pre_shape s n = Ok p -> Forall (fun x => wf (am x)) (app_occ p).
+Proof.
+  intros s n p P. unfold pre_shape in P.
+  destruct (find_enode s n) as [n1|] eqn:F; cbn [bind] in P; [|discriminate].
+  destruct (variants s n1) as [vs|] eqn:Ev; cbn [bind] in P; [|discriminate].
+  apply min_variant_in in P. destruct P as [P|[k P]]; [|discriminate].
+  assert (W1 : Forall (fun x => wf (am x)) (app_occ n1)).
+  { unfold find_enode in F. destruct (mapr (find_applied_id s) (app_occ n)) as [l|] eqn:El; cbn [bind] in F; [|discriminate].
+    inversion F; subst n1; clear F. rewrite app_occ_set_apps by (eapply mapr_length; eauto).
+    apply Forall_forall. intros a' Ha'. destruct (mapr_in _ _ _ El a' Ha') as (a & Ha & Fa).
+    unfold find_applied_id in Fa. destruct (unionfind_get s (aid a)) as [q|]; cbn [bind] in Fa; [|discriminate].
+    inversion Fa; subst a'. cbn [am]. apply compose_partial_wf. }
+  unfold variants in Ev.
+  destruct (mapr (fun a => get_class s (aid a)) (app_occ n1)) as [cls|] eqn:Ec; cbn [bind] in Ev; [|discriminate].
+  destruct (forallb _ cls).
+  - inversion Ev; subst vs. destruct P as [<-|[]]. exact W1.
+  - destruct (mapr _ cls) as [groups|] eqn:Eg; cbn [bind] in Ev; [|discriminate]. inversion Ev; subst vs; clear Ev.
+    apply in_map_iff in P. destruct P as (l & <- & Hl). apply Forall_forall. intros x Hx.
+    apply app_occ_set_apps_in in Hx. destruct Hx as [Hx|Hx]; [|exact (proj1 (Forall_forall _ _) W1 x Hx)].
+    apply zip_with_in in Hx. destruct Hx as (a & pp & ->). cbn [am]. apply compose_partial_wf.
+Qed.
+
+(* the handle-value invariant: a value of the map of a handle that is a fresh slot (1 mod 4) was
+   drawn from the counter *)
+Definition hvb (c : N) (a : appid) : Prop := forall v, In v (values_vec (am a)) -> v mod 4 <> 1 \/ v < c.
+
+Lemma hvb_mono : forall c c' a, c <= c' -> hvb c a -> hvb c' a.
+Proof. intros c c' a L H v Hv. destruct (H v Hv) as [T|T]; [left; exact T|right; lia]. Qed.
+
+Lemma set_apps_all_bound : forall n l c, (forall x, In x (all_occ n) -> usern x) -> Forall (hvb c) l ->
+  forall y, In y (all_occ (set_apps n l)) -> y mod 4 <> 1 \/ y < c.
+Proof.
+  intros n l c U Vl y Hy. unfold all_occ, set_apps in Hy. cbn [nargs] in Hy.
+  apply set_apps_args_all in Hy. destruct Hy as [Hy|(z & Hz & Hy)].
+  - left. destruct (U y Hy) as [T|T]; rewrite T; discriminate.
+  - exact (proj1 (Forall_forall _ _) Vl z Hz y Hy).
+Qed.
+
 Section AddExpr.
-  (* an additional structural run invariant needed by the assumed facts (e.g. stored_ok of SoundNode.v) *)
+  (* an additional structural run invariant needed by the facts below (SoundRebuild.v: stored_ok of
+     SoundNode.v, kids_exist, mod4_ok) *)
   Variable RI : egraph -> Prop.
-  (* ASSUMED (proved elsewhere): the insertion of a weak shape keeps the invariant; the shape's
-     pre-image denotes the returned invocation *)
+  (* (proved in SoundRebuild.v) the insertion of a weak shape keeps the invariant; the shape's
+     pre-image denotes the returned invocation.  The pre-image has covered children with well-formed
+     maps, and its public slots of the fresh kind (1 mod 4) are below the counter *)
   Hypothesis HB_add_internal : forall E t p s a s', inv3 s -> syn_wf s -> Sound E s -> RI s -> ectr s mod 4 = 1 -> wshape p = Ok t ->
-    Forall (covers s) (app_occ p) -> add_internal t s = Ok (a, s') ->
+    Forall (covers s) (app_occ p) -> Forall (fun x => wf (am x)) (app_occ p) ->
+    (forall x, In x (pub_occ p) -> x mod 4 <> 1 \/ x < ectr s) ->
+    add_internal t s = Ok (a, s') ->
     Sound E s' /\ syn_wf s' /\ nsound E s' a p /\ RI s'.
-  (* ASSUMED: the values of the returned map are public slots of the node or fresh slots (the fresh
-     counter is 1 mod 4 in every reachable state: ModelFacts.add_expr_ctr_grows) *)
+  (* the values of the returned map are public slots of the node or fresh slots, drawn from the
+     counter (the fresh counter is 1 mod 4 in every reachable state: ModelFacts.add_expr_ctr_grows) *)
   Hypothesis HB_add_internal_vals : forall t p s a s', inv3 s -> ectr s mod 4 = 1 -> wshape p = Ok t ->
-    add_internal t s = Ok (a, s') -> forall v, In v (values_vec (am a)) -> In v (pub_occ p) \/ v mod 4 = 1.
+    add_internal t s = Ok (a, s') -> forall v, In v (values_vec (am a)) -> In v (pub_occ p) \/ (v mod 4 = 1 /\ v < ectr s').
 
   Lemma eg_add_vals : forall n s a s', inv3 s -> ectr s mod 4 = 1 -> eg_add n s = Ok (a, s') ->
-    forall v, In v (values_vec (am a)) -> In v (all_occ n) \/ v mod 4 = 1.
+    forall v, In v (values_vec (am a)) -> In v (all_occ n) \/ (v mod 4 = 1 /\ v < ectr s').
   Proof.
     intros n s a s' I Cm H v Hv. unfold eg_add in H. apply bind_reads_inv in H. destruct H as (t & Ht & H).
     unfold shape in Ht. destruct (pre_shape s n) as [p|] eqn:P; cbn [bind] in Ht; [|discriminate].
@@ -512,23 +583,26 @@ Section AddExpr.
 
   (* (2) *)
   Theorem Sound_eg_add : forall E n s a s', inv3 s -> syn_wf s -> Sound E s -> RI s -> ectr s mod 4 = 1 -> Forall (covers s) (app_occ n) ->
+    (forall x, In x (all_occ n) -> x mod 4 <> 1 \/ x < ectr s) ->
     eg_add n s = Ok (a, s') -> Sound E s' /\ syn_wf s' /\ nsound E s' a n /\ RI s'.
   Proof.
-    intros E n s a s' I W S HR Cm0 Cv H0. pose proof H0 as H.
+    intros E n s a s' I W S HR Cm0 Cv Bn H0. pose proof H0 as H.
     unfold eg_add in H. apply bind_reads_inv in H. destruct H as (t & Ht & H).
     unfold shape in Ht. destruct (pre_shape s n) as [p|] eqn:P; cbn [bind] in Ht; [|discriminate].
-    destruct (HB_add_internal E t p s a s' I W S HR Cm0 Ht (pre_shape_covers s n p I Cv P) H) as (S' & W' & NS & HR').
+    assert (Bp : forall x, In x (pub_occ p) -> x mod 4 <> 1 \/ x < ectr s).
+    { intros x Hx. apply Bn. apply (pre_shape_all_occ s n p P). apply pub_occ_all_occ. exact Hx. }
+    destruct (HB_add_internal E t p s a s' I W S HR Cm0 Ht (pre_shape_covers s n p I Cv P) (pre_shape_kids_wf s n p P) Bp H) as (S' & W' & NS & HR').
     destruct (eg_add_covers n s a s' I H0) as (I' & X & _).
     split; [exact S'|]. split; [exact W'|]. split; [|exact HR']. exact (pre_shape_back E s s' a n p (proj1 (proj1 I)) S X W' Cv P NS).
   Qed.
 
   Definition kids_res (E : equations) (s1 : egraph) (l : list appid) (ch : list rterm) : Prop :=
-    RI s1 /\ syn_wf s1 /\ Sound E s1 /\ Forall (covers s1) l /\ Forall vnb l /\
+    RI s1 /\ syn_wf s1 /\ Sound E s1 /\ Forall (covers s1) l /\ Forall vnb l /\ Forall (hvb (ectr s1)) l /\
     Forall2 (fun a c => handle_ok E s1 a (canon0 c)) l ch.
 
   Lemma Sound_add_expr_k : forall E k t s a s', (rsize t < k)%nat -> inv3 s -> syn_wf s -> Sound E s -> RI s ->
     ectr s mod 4 = 1 -> rt_ok t -> rt_wf t -> add_expr t s = Ok (a, s') ->
-    Sound E s' /\ handle_ok E s' a (canon0 t) /\ syn_wf s' /\ vnb a /\ RI s'.
+    Sound E s' /\ handle_ok E s' a (canon0 t) /\ syn_wf s' /\ vnb a /\ hvb (ectr s') a /\ RI s'.
   Proof.
     intros E. induction k as [|k IHk]; intros t s a s' Hk I W S HR Cm OK WF H; [lia|].
     destruct t as [n ch]. rewrite add_expr_unfold in H.
@@ -542,29 +616,35 @@ Section AddExpr.
       - inversion H; subst. split; [exact I0|]. split; [apply ext0_refl|]. split; [exact M0|]. unfold kids_res. repeat (split; [solve [auto]|]). auto.
       - inversion Co as [|? ? Oc Or]; subst. inversion Cw as [|? ? Wc Wr]; subst.
         apply mbind_inv in H. destruct H as (a0 & s1 & H1 & H).
-        destruct (IHk c s0 a0 s1 (Hs c (or_introl eq_refl)) I0 W0 S0 R0 M0 Oc Wc H1) as (S1 & O1 & W1 & V1 & R1).
+        destruct (IHk c s0 a0 s1 (Hs c (or_introl eq_refl)) I0 W0 S0 R0 M0 Oc Wc H1) as (S1 & O1 & W1 & V1 & B1 & R1).
         pose proof (proj2 (add_expr_ctr_grows c s0 a0 s1 H1) M0) as M1.
         destruct (add_expr_covers c s0 a0 s1 I0 H1) as (I1 & X1 & C1).
         apply mbind_inv in H. destruct H as (r' & s3 & H3 & H). inversion H; subst l0 s3; clear H.
-        destruct (IHr (fun c' Hc' => Hs c' (or_intror Hc')) Or Wr s1 r' s2 I1 W1 S1 R1 M1 H3) as (I2 & X2 & M2 & (R2 & W2 & S2 & C2 & V2 & F2)).
+        destruct (IHr (fun c' Hc' => Hs c' (or_intror Hc')) Or Wr s1 r' s2 I1 W1 S1 R1 M1 H3) as (I2 & X2 & M2 & (R2 & W2 & S2 & C2 & V2 & B2 & F2)).
         split; [exact I2|]. split; [eapply ext0_trans; eauto|]. split; [exact M2|]. unfold kids_res.
         split; [exact R2|]. split; [exact W2|]. split; [exact S2|]. split; [constructor; [eapply covers_ext0; eauto|exact C2]|].
-        split; [constructor; assumption|]. constructor; [|exact F2]. eapply handle_ok_ext0; eauto. }
+        split; [constructor; assumption|]. split; [constructor; [exact (hvb_mono _ _ _ (proj1 X2) B1)|exact B2]|].
+        constructor; [|exact F2]. eapply handle_ok_ext0; eauto. }
     assert (Hsz : forall c, In c ch -> (rsize c < k)%nat).
     { intros c Hc. pose proof (rsize_child n ch c Hc). lia. }
-    destruct (G ch Hsz C Cw s l s1 I W S HR Cm Hgo) as (I1 & X1 & M1 & (R1 & W1 & S1 & C1 & V1 & F1)).
+    destruct (G ch Hsz C Cw s l s1 I W S HR Cm Hgo) as (I1 & X1 & M1 & (R1 & W1 & S1 & C1 & V1 & B1 & F1)).
     pose proof (F2_length _ _ _ F1) as Ll.
     destruct (Nat.ltb _ _); [discriminate|].
     assert (Lo : List.length l = List.length (app_occ n)) by lia.
     assert (Ao : app_occ (set_apps n l) = l) by (apply app_occ_set_apps; exact Lo).
     assert (Cv' : Forall (covers s1) (app_occ (set_apps n l))) by (rewrite Ao; exact C1).
-    destruct (Sound_eg_add E _ s1 a s' I1 W1 S1 R1 M1 Cv' H) as (S' & W' & NS & R').
+    pose proof (set_apps_all_bound n l (ectr s1) U B1) as Bn.
+    destruct (Sound_eg_add E _ s1 a s' I1 W1 S1 R1 M1 Cv' Bn H) as (S' & W' & NS & R').
     destruct (eg_add_covers _ s1 a s' I1 H) as (I' & X' & Ca).
     assert (Va : vnb a).
     { intros v Hv. destruct (eg_add_vals _ s1 a s' I1 M1 H v Hv) as [T|T].
       - eapply set_apps_all_notB; eauto.
       - unfold is_B. lia. }
-    split; [exact S'|]. split; [|split; [assumption|split; assumption]].
+    assert (Ba : hvb (ectr s') a).
+    { intros v Hv. destruct (eg_add_vals _ s1 a s' I1 M1 H v Hv) as [T|T].
+      - destruct (Bn v T) as [T'|T']; [left; exact T'|right]. pose proof (proj1 X') as L. lia.
+      - right. exact (proj2 T). }
+    split; [exact S'|]. split; [|split; [assumption|split; [assumption|split; assumption]]].
     apply (bridge E s' W' a n ch l I' S' Ca Va); try assumption.
     - apply rt_ok_iff. split; assumption.
     - clear -F1 C1 X'. induction F1 as [|x y l l' Hxy F IHF]; [constructor|]. inversion C1; subst.
@@ -577,7 +657,7 @@ Section AddExpr.
     rt_ok t -> rt_wf t -> add_expr t s = Ok (a, s') -> Sound E s' /\ handle_ok E s' a (canon0 t) /\ syn_wf s' /\ RI s'.
   Proof.
     intros E t s a s' I W Sd HR Cm OK WF H.
-    destruct (Sound_add_expr_k E (S (rsize t)) t s a s' (Nat.lt_succ_diag_r _) I W Sd HR Cm OK WF H) as (A & C & D & _ & R').
+    destruct (Sound_add_expr_k E (S (rsize t)) t s a s' (Nat.lt_succ_diag_r _) I W Sd HR Cm OK WF H) as (A & C & D & _ & _ & R').
     auto.
   Qed.
 End AddExpr.
@@ -594,6 +674,11 @@ End AddExpr.
    - pre_shape_covers: the children of a pre-shape of a node with covered children are covered.
    CONDITIONAL (Section AddExpr) on HB_add_internal and HB_add_internal_vals:
    - Sound_eg_add (2), Sound_add_expr (3).
+   THIRD ROUND: pre_shape_kids_wf (the child maps of a pre-shape are well formed); the handle-value
+   invariant `hvb c a` (a value of the map of a that is 1 mod 4 is below c) is threaded through
+   Sound_add_expr_k (kids_res, and the returned handle at the new counter), so that HB_add_internal is
+   called with the two extra premises needed by SoundAddNew.nsound_add_internal_new;
+   HB_add_internal_vals is used in the strengthened form (fresh values are below the new counter).
    EXTRA PREMISES of Sound_add_expr with respect to the statement assumed in SoundRebuild.v:
    - rt_wf t: every node of the term has exactly one child per applied-id position.  Without it the
      statement is false: with fewer children `set_apps` keeps the placeholder invocation of the
